@@ -14,6 +14,7 @@ func init() { Registry["C06"] = c06 }
 
 func c06(e *Env) {
 	r := e.R
+	isDrainingChild(e)
 	r.Rule("every one of the 170 types × values (even cases canonical, odd cases arbitrary; only values that encode without error are judged) × buffer history H1..H7; plus mixed-type sequences of up to 20 messages into one buffer with random partial drains in between and, before one message in six, an encode that must FAIL (65 536 elements behind a 16-bit count, bare or inside its frame) into a buffer that is thrown away. distinct_nontrivial = distinct (non-zero value hash, history) pairs + distinct sequences")
 	r.Explain("Oracle per encode: (i) the unread bytes present before the call are unchanged afterwards; (ii) the appended bytes equal the bytes obtained by encoding a deep clone (taken before the first encode) into a fresh empty buffer; (iii) encoding the same object a second and a third time into fresh buffers gives the same bytes (computed fields and materialised bodies do not change the result); (iv) for a sequence m1..mn with random drains, the final unread content equals the concatenation of the individual fresh encodings minus the drained prefix.")
 	r.Assume("bytes.Buffer itself is correct")
@@ -157,6 +158,19 @@ func c06(e *Env) {
 				break
 			}
 		}
+		// every frame and every extension carrier with a caller-supplied body that writes a few bytes and then fails
+		// (Body / ApplExtend are plain codec.BinaryCodec fields: any implementation is a legitimate value)
+		for _, t := range e.S.Order {
+			for _, f := range t.Fields {
+				if f.Kind != "union" {
+					continue
+				}
+				fg := &gen.Gen{S: e.S, C: e.C, R: gen.NewRng(e.Seed, "C06", "failer-stub", t.QName), O: &gen.Opts{}}
+				fv := fg.Value(t)
+				reflect.ValueOf(fv).Elem().FieldByName(f.Name).Set(reflect.ValueOf(&failingBody{N: 3 + len(failers)%17}))
+				failers = append(failers, fv)
+			}
+		}
 		hs.merge(map[string]int{"distinct-values-whose-encode-must-fail": len(failers)})
 		e.Par(nseq, func(si int) {
 			rng := gen.NewRng(e.Seed, "C06", "seq", si)
@@ -217,7 +231,17 @@ func c06(e *Env) {
 		})
 	}
 	r.Set("observations", hs.m)
+	runDrainingChild(e) // the same histories with checksum services that read the buffer they are handed to its end
 }
+
+// failingBody is a caller-supplied body that writes n bytes and then refuses.
+type failingBody struct{ N int }
+
+func (b *failingBody) Encode(buf *bytes.Buffer) error {
+	buf.Write(bytes.Repeat([]byte{0xFB}, b.N))
+	return fmt.Errorf("failingBody: refusing after %d bytes", b.N)
+}
+func (b *failingBody) Decode(*bytes.Buffer) error { return fmt.Errorf("failingBody") }
 
 func firstDiffPlain(a, b []byte) map[string]any {
 	n := len(a)
